@@ -3,17 +3,22 @@ import DropletsVerif.Generated.Residual
 namespace DV.Drv
 open DV.Gen
 
-/-- `c05 <fixed|fitted> vmin vrng render data` (float bits) -/
+/-- `c05 <fixed|fitted> vmin vrng render data vrng0` (float bits): the residual in the unit `residual_scale vrng0`;
+`c05 scale vrng0`: that unit -/
 def handleC05 (args : List String) : String :=
   match args with
-  | [kind, a, b, c, d] =>
-    match parseFloat a, parseFloat b, parseFloat c, parseFloat d with
-    | some a, some b, some c, some d =>
+  | [kind, a, b, c, d, e] =>
+    match parseFloat a, parseFloat b, parseFloat c, parseFloat d, parseFloat e with
+    | some a, some b, some c, some d, some e =>
       match kind with
-      | "fixed" => "ok " ++ showFloat (residual_fixed_levels a b c d)
-      | "fitted" => "ok " ++ showFloat (residual_fitted_levels a b c d)
+      | "fixed" => "ok " ++ showFloat (residual_fixed_levels a b c d (residual_scale e))
+      | "fitted" => "ok " ++ showFloat (residual_fitted_levels a b c d (residual_scale e))
       | _ => "bad-op"
-    | _, _, _, _ => "bad-op"
+    | _, _, _, _, _ => "bad-op"
+  | ["scale", a] =>
+    match parseFloat a with
+    | some a => "ok " ++ showFloat (residual_scale a)
+    | none => "bad-op"
   | _ => "bad-op"
 
 end DV.Drv
